@@ -63,28 +63,36 @@ def run_c08(tier, seed):
 
 def run_c16(tier, seed):
     import re
-    scripts, meta, res, wall = c_gc.check_c16(tier, seed)
-    # implementation-only predicate: linear bound and doubling ratio on the real counters
-    text = "".join("\n".join(s) + "\n---\n" for s in scripts)
-    try:
-        rc, hout, herr = run([HBIN, "gc"], stdin=text.encode(), timeout=600 if tier == "quick" else 3000)
-    except Exception as e:
-        rc, hout, herr = 124, "", "timeout"
-    viols, table, bad = [], [], []
-    groups = hout.split("---\n")
-    per = {}
-    for k, (kind, ch, kk, n, e) in enumerate(meta):
-        lines = groups[k].strip().split("\n") if k < len(groups) else []
-        cl = [l for l in lines if l.startswith("n=")]
-        if not cl:
-            bad.append((k, "no result (panic, hang or crash): " + (lines[-1] if lines else herr[-200:])))
-            continue
-        m = re.search(r"freed=(\d+) R:(\d+) T:(\d+) C:(\d+)/(\d+)", cl[0])
-        freed, tc, ec = int(m.group(1)), int(m.group(4)), int(m.group(5))
-        table.append({"family": kind, "roots": ch, "k": kk, "objects": n, "edges": e, "trace_calls": tc, "edge_callbacks": ec, "freed": freed})
-        if tc > 30 * (2 * n) + 30 or ec > 30 * e + 30:
-            bad.append((k, f"cost not linear: {tc} trace calls / {ec} callbacks for {n} objects, {e} edges"))
-        per.setdefault((kind, ch), []).append((kk, (tc + ec) / float(n + e + 1)))
+    viols, table, bad, per, disagree_total, nscripts = [], [], [], {}, 0, 0
+    all_scripts, all_meta = [], []
+    first_disagree = None
+    for scripts, meta, res in c_gc.check_c16(tier, seed):
+        base = len(all_scripts); all_scripts += scripts; all_meta += meta; nscripts += len(scripts)
+        # implementation-only predicate on this size tier: linear bound on the real counters (memory- and time-capped run)
+        text = "".join("\n".join(s) + "\n---\n" for s in scripts)
+        try:
+            rc, hout, herr = run([HBIN, "gc"], stdin=text.encode(), timeout=120 if meta[0][2] <= 64 else 900, mem_gb=6)
+        except Exception as e:
+            rc, hout, herr = 124, "", "timeout"
+        groups = hout.split("---\n")
+        for k, (kind, ch, kk, n, e) in enumerate(meta):
+            lines = groups[k].strip().split("\n") if k < len(groups) else []
+            cl = [l for l in lines if l.startswith("n=")]
+            if not cl:
+                bad.append((base + k, f"no result within the time/memory budget (rc={rc}): " + (lines[-1] if lines and lines[-1] else herr[-200:])))
+                continue
+            m = re.search(r"freed=(\d+) R:(\d+) T:(\d+) C:(\d+)/(\d+)", cl[0])
+            freed, tc, ec = int(m.group(1)), int(m.group(4)), int(m.group(5))
+            table.append({"family": kind, "roots": ch, "k": kk, "objects": n, "edges": e, "trace_calls": tc, "edge_callbacks": ec, "freed": freed})
+            if tc > 30 * (2 * n) + 30 or ec > 30 * e + 30:
+                bad.append((base + k, f"cost not linear: {tc} trace calls / {ec} callbacks for {n} objects, {e} edges"))
+            per.setdefault((kind, ch), []).append((kk, (tc + ec) / float(n + e + 1)))
+        if res["disagree"] and first_disagree is None:
+            k, j, h, m = res["disagree"][0]
+            first_disagree = (base + k if k >= 0 else -1, j, h, m)
+        disagree_total += len(res["disagree"])
+        if bad: break          # never run a collector that is already super-linear on larger graphs
+    scripts, meta = all_scripts, all_meta
     for key, pts in per.items():
         pts.sort()
         for (k1, c1), (k2, c2) in zip(pts, pts[1:]):
@@ -95,22 +103,21 @@ def run_c16(tier, seed):
         k, why = bad[0]
         viols.append({"what": "collection cost/termination violated on the real collector: " + why, "found_input": True,
                       "replay_text": f"# {why}\n# family {meta[k][:3]}\n" + "\n".join(scripts[k]) + "\n", "signature": f"{meta[k][0]}/{meta[k][1]}"})
-    elif res["disagree"]:
-        k, j, h, m = res["disagree"][0]
-        viols.append({"what": f"model M_gc and gc_node.rs disagree on trace-call counters ({len(res['disagree'])} family scripts); measured cost still within the linear bound",
+    elif first_disagree:
+        k, j, h, m = first_disagree
+        viols.append({"what": f"model M_gc and gc_node.rs disagree on trace-call counters ({disagree_total} family scripts); measured cost still within the linear bound",
                       "found_input": False,
                       "replay_text": "correspondence L-gc with exact trace/edge counters (Model/Gc.lean vs src/impl_/gc_node.rs) no longer checks; cost theorems of Props/C16.lean no longer apply to the code\n"
                                      f"# family {meta[k][:3] if k >= 0 else '?'}; first disagreement at line {j}: impl `{h}` model `{m}`\n" + ("\n".join(scripts[k]) if k >= 0 else "") + "\n",
                       "signature": None})
     big = max(table, key=lambda r: r["objects"]) if table else {}
-    cov = {"evaluations": len(scripts), "distinct_nontrivial": len({(m[0], m[1], m[2]) for m in meta if m[2] >= 2}),
-           "rule": "graph families (ladder of diamonds, cyclic ladder, fan-out, fan-in, chain, ring, random shared DAG) x candidate-root choices (all dropped / top first / keep bottom / keep top) x sizes; non-trivial = size >= 2; each built on the real GcCtx and on the model, trace()/callback counters compared exactly after each collection",
+    cov = {"evaluations": nscripts, "distinct_nontrivial": len({(m[0], m[1], m[2]) for m in meta if m[2] >= 2}),
+           "rule": "graph families (ladder of diamonds, cyclic ladder, fan-out, fan-in, chain, ring, random shared DAG) x candidate-root choices (all dropped / top first / keep bottom / keep top) x sizes, smallest sizes first (the run stops at the first size that violates the bound; every harness run is capped at 6 GB and 2-15 min); non-trivial = size >= 2; each built on the real GcCtx and on the model, trace()/callback counters compared exactly after each collection",
            "samples": [table[0], big] if table else [],
-           "correspondence": {"level": "L-gc (brief observations: counters exact)", "scripts": len(scripts), "model_vs_impl_disagreements": len(res["disagree"])},
+           "correspondence": {"level": "L-gc (brief observations: counters exact)", "scripts": nscripts, "model_vs_impl_disagreements": disagree_total},
            "cost_table_excerpt": [r for r in table if r["family"] in ("ladder", "shared") and r["roots"] == "all"][-6:],
            "max_objects": big.get("objects"), "bound_checked": "trace_calls <= 60*objects+30, callbacks <= 30*edges+30, (calls+callbacks)/(objects+edges) grows by <= 25% per doubling (deterministic families, k >= 16)"}
-    return {"coverage": cov, "violations": viols, "summary": f"families={len(scripts)} max_objects={big.get('objects')} disagreements={len(res['disagree'])}"}
-
+    return {"coverage": cov, "violations": viols, "summary": f"families={nscripts} max_objects={big.get('objects')} disagreements={disagree_total}"}
 
 def node_replay(path):
     ops = [l.strip() for l in open(path) if l.strip() and not l.startswith("#") and not l.startswith("correspondence")]
